@@ -1143,6 +1143,7 @@ def run(ctx, big=False):
         correspondence(ctx, res, TRACE_RECORDS)
         schedule_correspondence(ctx, res, 500 if (ctx.quick and not big) else 5000)
         reference_correspondence(ctx, res, 300 if (ctx.quick and not big) else 3000)
+        reference_selfcheck(ctx, res, 400 if (ctx.quick and not big) else 4000)
     return res
 
 
@@ -1186,6 +1187,126 @@ def reference_correspondence(ctx, res, n):
     for i in bad[:3]:
         res.disagreements.append(fw.Violation('reference_correspondence', 'the reference dictionary and the machine run with one client give different outcomes '
                                               '(code %r) for %s' % (codes[i], progs[i]), {'check': 'reference', 'program': progs[i], 'code': codes[i]}, 'correspondence'))
+
+
+def reference_selfcheck(ctx, res, n):
+    """The small reference Deque / Index of this module (used by the block, kill and bounded-deque monitors of C06, C07, C11)
+    against collections.deque(maxlen) and collections.OrderedDict on random sequential programs: same results, same contents."""
+    import collections
+    rng = ctx.rng
+    bad = 0
+    for k in range(n):
+        maxlen = rng.choice([None, None, 1, 2, 3])
+        ref, dq = RefDeque(maxlen=maxlen), collections.deque(maxlen=maxlen)
+        trace = []
+        for j in range(rng.randrange(3, 14)):
+            op = rng.choice(['append', 'append', 'appendleft', 'pop', 'popleft', 'len', 'iter', 'extend', 'extendleft', 'rotate', 'getitem', 'setitem', 'delitem',
+                             'clear', 'reverse', 'count', 'remove', 'reversed', 'peek', 'peekleft'])
+            call = {'op': op}
+            if op in ('append', 'appendleft', 'count', 'remove', 'setitem'):
+                call['value'] = rng.randrange(0, 4)
+            if op in ('extend', 'extendleft'):
+                call['values'] = [rng.randrange(0, 4) for _ in range(rng.randrange(0, 4))]
+            if op in ('getitem', 'setitem', 'delitem'):
+                call['index'] = rng.randrange(-4, 4)
+            if op == 'rotate':
+                call['steps'] = rng.randrange(-3, 4)
+            trace.append(call)
+            got = ref_result(ref, call)
+            try:
+                if op in ('append', 'appendleft', 'count', 'remove'):
+                    want = ('ok', getattr(dq, op)(call['value']))
+                elif op in ('extend', 'extendleft'):
+                    want = ('ok', getattr(dq, op)(call['values']))
+                elif op in ('pop', 'popleft', 'clear', 'reverse'):
+                    want = ('ok', getattr(dq, op)())
+                elif op == 'peek':
+                    want = ('ok', dq[-1])
+                elif op == 'peekleft':
+                    want = ('ok', dq[0])
+                elif op == 'len':
+                    want = ('ok', len(dq))
+                elif op == 'iter':
+                    want = ('ok', list(dq))
+                elif op == 'reversed':
+                    want = ('ok', list(reversed(dq)))
+                elif op == 'rotate':
+                    want = ('ok', dq.rotate(call['steps']))
+                elif op == 'getitem':
+                    want = ('ok', dq[call['index']])
+                elif op == 'setitem':
+                    dq[call['index']] = call['value']
+                    want = ('ok', None)
+                else:
+                    del dq[call['index']]
+                    want = ('ok', None)
+            except (IndexError, ValueError) as e:
+                want = ('exc', type(e).__name__)
+            if got != want or ref.final_view() != list(dq):
+                bad += 1
+                res.disagreements.append(fw.Violation('reference_selfcheck', 'the reference Deque (maxlen %r) gives %r / %r, collections.deque %r / %r after %s'
+                                                      % (maxlen, got, ref.final_view(), want, list(dq), trace), {'check': 'refdeque', 'maxlen': maxlen, 'program': trace}, 'correspondence'))
+                break
+        ix, od = RefIndex(), collections.OrderedDict()
+        trace = []
+        for j in range(rng.randrange(3, 14)):
+            op = rng.choice(['setitem', 'setitem', 'getitem', 'delitem', 'contains', 'len', 'iter', 'reversed', 'pop', 'popitem', 'setdefault', 'update', 'items', 'clear'])
+            call = {'op': op}
+            if op in ('setitem', 'getitem', 'delitem', 'contains', 'pop', 'setdefault'):
+                call['key'] = rng.choice('abcd')
+            if op == 'setitem':
+                call['value'] = rng.randrange(0, 9)
+            if op == 'pop' and rng.random() < 0.5:
+                call['default'] = 'dflt'
+            if op == 'setdefault':
+                call['default'] = rng.randrange(0, 9)
+            if op == 'popitem':
+                call['last'] = rng.random() < 0.5
+            if op == 'update':
+                call['items'] = [[rng.choice('abcd'), rng.randrange(0, 9)] for _ in range(rng.randrange(0, 3))]
+            trace.append(call)
+            got = ref_result(ix, call)
+            try:
+                if op == 'setitem':
+                    od[call['key']] = call['value']
+                    want = ('ok', None)
+                elif op == 'getitem':
+                    want = ('ok', od[call['key']])
+                elif op == 'delitem':
+                    del od[call['key']]
+                    want = ('ok', None)
+                elif op == 'contains':
+                    want = ('ok', call['key'] in od)
+                elif op == 'len':
+                    want = ('ok', len(od))
+                elif op == 'iter':
+                    want = ('ok', list(od))
+                elif op == 'reversed':
+                    want = ('ok', list(reversed(od)))
+                elif op == 'pop':
+                    want = ('ok', od.pop(call['key'], call['default']) if 'default' in call else od.pop(call['key']))
+                elif op == 'popitem':
+                    want = ('ok', list(od.popitem(last=call['last'])))
+                elif op == 'setdefault':
+                    want = ('ok', od.setdefault(call['key'], call['default']))
+                elif op == 'update':
+                    od.update([tuple(x) for x in call['items']])
+                    want = ('ok', None)
+                elif op == 'items':
+                    want = ('ok', [list(x) for x in od.items()])
+                else:
+                    od.clear()
+                    want = ('ok', None)
+            except KeyError:
+                want = ('exc', 'KeyError')
+            if got != want or ix.final_view() != [list(x) for x in od.items()]:
+                bad += 1
+                res.disagreements.append(fw.Violation('reference_selfcheck', 'the reference Index gives %r / %r, OrderedDict %r / %r after %s'
+                                                      % (got, ix.final_view(), want, list(od.items()), trace), {'check': 'refindex', 'program': trace}, 'correspondence'))
+                break
+        if bad >= 3:
+            break
+    res.extra['reference_selfcheck'] = {'programs_each': n, 'disagreements': bad}
 
 
 def schedule_correspondence(ctx, res, n, kind_filter=None):
